@@ -282,9 +282,12 @@ def run(chk):
         modmap[k] = mo
     nbin = 0
     outcomes = {}
+    # quick tier: the debug BINARY only where a guard decides (the crate itself was already run in debug by lib-magnitude)
+    edge = set(m for bs in boundary.values() for m in bs) | set(m for m in mags if m <= 2 or any(abs(m - k) <= 1 for k in (MB, F.USIZE_MAX, F.U32_MAX)))
     for prof in ("release", "debug"):
-        res = R.run_many(bins[prof], bin_cases, root, workers=14, tag="m" + prof[0])
-        for c, r in zip(bin_cases, res):
+        cases_p = bin_cases if (prof == "release" or not quick) else [c for c in bin_cases if c["param"] in edge or (c["family"], c["param"]) in slow_probes]
+        res = R.run_many(bins[prof], cases_p, root, workers=14, tag="m" + prof[0])
+        for c, r in zip(cases_p, res):
             fam, m = c["family"], c["param"]
             mo = modmap.get((fam, m))
             nbin += 1
